@@ -39,6 +39,6 @@ pub open spec fn dangling(ops: Seq<SwapOperation>) -> Set<String> decreases ops.
             assert(nxt.drop_last() =~= pre);
             assert(nxt.last() == operations@[it.index@ as int]);
         }
-//%%insert before #1 /if ask_asset_map\.len\(\) != 1/
+//%%insert before #1 /if ask_asset_map\./
     proof { assert(operations@.take(operations@.len() as int) =~= operations@); }
 //%end
